@@ -1149,12 +1149,12 @@ def generate(spec_path, repo, features, known_off=False, canary=None):
     preludes = []
     for e in unit.entries:
         if e[0] == 'prelude':
-            path = os.path.join(VERIF, 'contracts', e[1])
+            path = os.path.join(os.path.dirname(os.path.abspath(spec_path)), e[1])
             body.append('// ---- prelude %s ----\n' % e[1] + open(path).read() + '\n')
             preludes.append(e[1])
         elif e[0] == 'prelude-if':
             if e[1] in features:
-                path = os.path.join(VERIF, 'contracts', e[2])
+                path = os.path.join(os.path.dirname(os.path.abspath(spec_path)), e[2])
                 body.append('// ---- prelude %s (feature %s) ----\n' % (e[2], e[1]) + expand_macros(open(path).read(), DEFINES) + '\n')
                 preludes.append(e[2])
         elif e[0] == 'raw':
